@@ -103,17 +103,6 @@ Proof. destruct o; cbn; [apply inr_le|trivial]. Qed.
 Lemma olit_agree n s t o : agree_upto n s t -> oinr n o -> olit s o = olit t o.
 Proof. destruct o; cbn; [apply lit_true_agree|reflexivity]. Qed.
 
-Ltac gate_bools :=
-  repeat match goal with
-  | |- context [lit_true ?s (- ?a)] =>
-      first [ rewrite (lit_true_neg s a) by lia
-            | rewrite (lit_true_opp s a) by (eauto using inr_nz) ]
-  end;
-  repeat match goal with
-  | |- context [lit_true ?s ?a] =>
-      generalize (lit_true s a); intro
-  end.
-
 Ltac vars_tac :=
   apply vars_upto_Forall;
   repeat (constructor; try (apply inr_opp);
